@@ -1,11 +1,314 @@
 package main
 
-// replay.go: replay of counterexamples against the real code, enumerations
-// (site/ownership obligations discharged syntactically), bounded stand-ins.
+// replay.go: replay of solver counterexamples against the real code.
+//
+// A fixture (/verif/replay/fixtures/*.go.tmpl) names the functions it serves,
+// a list of "model" expressions (contract language, evaluated in the entry
+// state of the failing function) and a Go test body with {{name}} placeholders.
+// On a sat answer the engine asks the solver for the values of the model
+// expressions, instantiates the test, injects it into package ice with
+// `go test -overlay` (nothing is written to the repository) and looks for the
+// line REPLAY-VIOLATED / REPLAY-HOLDS printed by the test.
+
+import (
+	"context"
+	"encoding/json"
+	"flag"
+	"fmt"
+	"os"
+	"os/exec"
+	"path/filepath"
+	"regexp"
+	"strings"
+	"time"
+)
+
+type Fixture struct {
+	File   string
+	Funcs  []string
+	Models [][2]string // name, expr
+	Body   string
+	Pkg    string // directory relative to repo ("." default)
+}
+
+func loadFixtures(verif string) []*Fixture {
+	files, _ := filepath.Glob(filepath.Join(verif, "replay", "fixtures", "*.go.tmpl"))
+	var out []*Fixture
+	for _, f := range files {
+		data, err := os.ReadFile(f)
+		if err != nil {
+			continue
+		}
+		fx := &Fixture{File: f, Pkg: "."}
+		var body []string
+		for _, l := range strings.Split(string(data), "\n") {
+			switch {
+			case strings.HasPrefix(l, "//fixture:"):
+				for _, kv := range strings.Fields(strings.TrimPrefix(l, "//fixture:")) {
+					if strings.HasPrefix(kv, "funcs=") {
+						fx.Funcs = strings.Split(strings.TrimPrefix(kv, "funcs="), ",")
+					}
+					if strings.HasPrefix(kv, "pkg=") {
+						fx.Pkg = strings.TrimPrefix(kv, "pkg=")
+					}
+				}
+			case strings.HasPrefix(l, "//model:"):
+				kv := strings.SplitN(strings.TrimPrefix(l, "//model:"), "=", 2)
+				if len(kv) == 2 {
+					fx.Models = append(fx.Models, [2]string{strings.TrimSpace(kv[0]), strings.TrimSpace(kv[1])})
+				}
+			default:
+				body = append(body, l)
+			}
+		}
+		fx.Body = strings.Join(body, "\n")
+		out = append(out, fx)
+	}
+	return out
+}
+
+func findFixture(fxs []*Fixture, fn string) *Fixture {
+	for _, f := range fxs {
+		for _, k := range f.Funcs {
+			if k == fn {
+				return f
+			}
+		}
+	}
+	return nil
+}
+
+var valueRe = regexp.MustCompile(`^\(\s*- (\d+)\)$`)
+
+func parseSMTValue(s string) string {
+	s = strings.TrimSpace(s)
+	if m := valueRe.FindStringSubmatch(s); m != nil {
+		return "-" + m[1]
+	}
+	return s
+}
+
+// modelValues asks the solver that answered sat for the values of terms.
+func modelValues(o *Obligation, terms []string, opts solveOpts) ([]string, string) {
+	if len(terms) == 0 {
+		return nil, ""
+	}
+	q := o.queryText(false)
+	// the model terms may have introduced new declarations after the prefix: rebuild with the extended prefix
+	var b strings.Builder
+	b.WriteString("(set-option :produce-models true)\n(set-logic ALL)\n")
+	for i, l := range o.vc.lines {
+		// after the obligation's prefix only declarations are kept: later assertions could change the model space
+		if i >= o.Prefix && !strings.HasPrefix(l, "(declare-") && !strings.HasPrefix(l, "(define-") {
+			continue
+		}
+		b.WriteString(l)
+		b.WriteByte('\n')
+	}
+	_ = q
+	if o.Reach != "" && o.Reach != "true" {
+		b.WriteString("(assert " + o.Reach + ")\n")
+	}
+	b.WriteString("(assert (not " + o.Goal + "))\n(check-sat)\n")
+	for _, t := range terms {
+		b.WriteString("(get-value (" + t + "))\n")
+	}
+	file := filepath.Join(opts.workdir, sanitizeFile(o.Name)+".values.smt2")
+	os.WriteFile(file, []byte(b.String()), 0o644)
+	var text string
+	for _, s := range solvers {
+		st, out, _ := runSolver(context.Background(), s, file, opts)
+		if st == "sat" {
+			text = out
+			break
+		}
+	}
+	if text == "" {
+		return nil, ""
+	}
+	lines := strings.Split(text, "\n")
+	var vals []string
+	// each get-value answer: ((term value)) possibly multi-line; join and split on top-level parens
+	rest := strings.Join(lines[1:], " ")
+	depth := 0
+	start := -1
+	for i, c := range rest {
+		switch c {
+		case '(':
+			if depth == 0 {
+				start = i
+			}
+			depth++
+		case ')':
+			depth--
+			if depth == 0 && start >= 0 {
+				item := rest[start+2 : i-1] // strip "((" and "))"
+				// value = last s-expression of item
+				item = strings.TrimSpace(item)
+				v := lastSExpr(item)
+				vals = append(vals, parseSMTValue(v))
+				start = -1
+			}
+		}
+	}
+	return vals, text
+}
+
+func lastSExpr(s string) string {
+	s = strings.TrimSpace(s)
+	if strings.HasSuffix(s, ")") {
+		depth := 0
+		for i := len(s) - 1; i >= 0; i-- {
+			switch s[i] {
+			case ')':
+				depth++
+			case '(':
+				depth--
+				if depth == 0 {
+					return s[i:]
+				}
+			}
+		}
+	}
+	if i := strings.LastIndexAny(s, " \t"); i >= 0 {
+		return s[i+1:]
+	}
+	return s
+}
+
+var replayFixtures []*Fixture
+var replaySolveOpts solveOpts
 
 func replayObligation(repo, verif, dir, prop string, o *Obligation, why string) (string, bool) {
-	path := writeReplay(dir, prop, o, why)
-	return path, false
+	path := filepath.Join(dir, prop+"_"+sanitizeFile(o.Name)+".txt")
+	var b strings.Builder
+	fmt.Fprintf(&b, "property: %s\nobligation: %s\nkind: %s\nfunction: %s\nposition: %s\nclause: %s\nresult: %s\nbackend: %s\n\n%s\n\n", prop, o.Name, o.Kind, o.Fn, o.Pos, o.Src, o.Status, o.Backend, why)
+	reproduced := false
+	if o.Status == "sat" && o.fr != nil {
+		if replayFixtures == nil {
+			replayFixtures = loadFixtures(verif)
+		}
+		if fx := findFixture(replayFixtures, o.Fn); fx != nil {
+			env := o.fr.envAt(o.fr.entry, o.fr.entry.heap, "replay model expression")
+			var terms []string
+			okTerms := true
+			nerr := len(o.vc.errors)
+			for _, m := range fx.Models {
+				se, err := parseSExpr(m[1])
+				if err != nil {
+					okTerms = false
+					break
+				}
+				terms = append(terms, env.eval(se).T())
+			}
+			if len(o.vc.errors) > nerr {
+				okTerms = false
+				fmt.Fprintf(&b, "replay: model expressions could not be evaluated: %v\n", o.vc.errors[nerr:])
+				o.vc.errors = o.vc.errors[:nerr]
+			}
+			if okTerms {
+				vals, _ := modelValues(o, terms, replaySolveOpts)
+				if len(vals) == len(terms) {
+					src := fx.Body
+					fmt.Fprintf(&b, "counterexample (values of the fixture's model expressions):\n")
+					for i, m := range fx.Models {
+						fmt.Fprintf(&b, "  %s = %s   (%s)\n", m[0], vals[i], m[1])
+						src = strings.ReplaceAll(src, "{{"+m[0]+"}}", goLiteral(vals[i]))
+					}
+					out, verdict := runReplayTest(repo, fx.Pkg, src)
+					cmd := fmt.Sprintf("cd %s/%s && go test -overlay <ov.json mapping zz_verif_replay_test.go> -vet=off -count=1 -timeout 60s -run TestVerifReplay .", repo, fx.Pkg)
+					fmt.Fprintf(&b, "\nreplay command: %s\nreplay verdict: %s\n", cmd, verdict)
+					fmt.Fprintf(&b, "---- replay test (package %s) ----\n//REPLAY-BEGIN pkg=%s\n%s\n//REPLAY-END\n---- replay output ----\n%s\n", fx.Pkg, fx.Pkg, src, truncate(out, 4000))
+					reproduced = verdict == "violated"
+				} else {
+					fmt.Fprintf(&b, "replay: the solver did not return values for the model expressions\n")
+				}
+			}
+		} else {
+			fmt.Fprintf(&b, "replay: no fixture for %s\n", o.Fn)
+		}
+	}
+	if o.Model != "" {
+		b.WriteString("---- solver output ----\n")
+		b.WriteString(truncate(o.Model, 20000))
+		b.WriteString("\n")
+	}
+	os.WriteFile(path, []byte(b.String()), 0o644)
+	return path, reproduced
+}
+
+func goLiteral(v string) string {
+	switch v {
+	case "true", "false":
+		return v
+	}
+	return v
+}
+
+// runReplayTest injects src as a test file of package dir pkg of the repo via -overlay.
+func runReplayTest(repo, pkg, src string) (string, string) {
+	tmp, err := os.MkdirTemp("", "govc-replay-")
+	if err != nil {
+		return err.Error(), "error"
+	}
+	defer os.RemoveAll(tmp)
+	testFile := filepath.Join(tmp, "zz_verif_replay_test.go")
+	os.WriteFile(testFile, []byte(src), 0o644)
+	target := filepath.Join(repo, pkg, "zz_verif_replay_test.go")
+	ov, _ := json.Marshal(map[string]any{"Replace": map[string]string{target: testFile}})
+	ovFile := filepath.Join(tmp, "ov.json")
+	os.WriteFile(ovFile, ov, 0o644)
+	ctx, cancel := context.WithTimeout(context.Background(), 180*time.Second)
+	defer cancel()
+	cmd := exec.CommandContext(ctx, "go", "test", "-overlay", ovFile, "-vet=off", "-count=1", "-timeout", "60s", "-run", "TestVerifReplay", ".")
+	cmd.Dir = filepath.Join(repo, pkg)
+	cmd.Env = append(os.Environ(), "GOFLAGS=-mod=mod", "GOPROXY=off")
+	out, _ := cmd.CombinedOutput()
+	text := string(out)
+	switch {
+	case strings.Contains(text, "REPLAY-VIOLATED"):
+		return text, "violated"
+	case strings.Contains(text, "REPLAY-HOLDS"):
+		return text, "holds"
+	}
+	return text, "inconclusive"
+}
+
+// cmdReplay re-runs the replay test embedded in a replay file.
+func cmdReplay(args []string) int {
+	fl := flag.NewFlagSet("replay", flag.ExitOnError)
+	repo := fl.String("repo", "/repo", "")
+	_ = fl.String("verif", "/verif", "")
+	prop := fl.String("prop", "", "")
+	file := fl.String("file", "", "")
+	fl.Parse(args)
+	data, err := os.ReadFile(*file)
+	if err != nil {
+		fmt.Fprintln(os.Stderr, err)
+		return 2
+	}
+	text := string(data)
+	i := strings.Index(text, "//REPLAY-BEGIN")
+	j := strings.Index(text, "//REPLAY-END")
+	if i < 0 || j < 0 {
+		fmt.Println("this replay file carries no executable counterexample (no-failing-input-found); obligation and solver output:")
+		fmt.Println(truncate(text, 3000))
+		return 1
+	}
+	head := text[i:j]
+	nl := strings.Index(head, "\n")
+	pkg := "."
+	if m := regexp.MustCompile(`pkg=(\S+)`).FindStringSubmatch(head[:nl]); m != nil {
+		pkg = m[1]
+	}
+	out, verdict := runReplayTest(*repo, pkg, head[nl+1:])
+	fmt.Println(out)
+	fmt.Printf("replay verdict: %s\n", verdict)
+	if verdict == "violated" {
+		fmt.Printf("VIOLATION property=%s replay=%s\n", *prop, *file)
+		return 1
+	}
+	return 0
 }
 
 func runEnumerations(P *Program, S *Specs, prop string) ([]*Obligation, []string) {
